@@ -87,7 +87,7 @@ func (w *vpWorld) reservedInStore(ip string) bool {
 	return r
 }
 
-// BOUND: topologies {0,1}; the administrator reserves any one configured IP with a labelled FloatingIP object (key empty or free text); its watch event is delivered before, between or after (or never) the scheduling of up to 3 default-policy statefulset pods; every binding annotation is checked against the reservations in the store at that moment
+// BOUND: topologies {0,1}; the administrator reserves any one configured IP with a labelled FloatingIP object (key empty or free text); its watch event is delivered before, between or after (or never) the scheduling of up to 3 default-policy statefulset pods (a failed bind is retried once); every binding annotation is checked against the reservations in the store at that moment
 // ASSUME: C09: reserved objects carry keys that are not galaxy-structured keys (empty or free text)
 func VerifC09_q_reservedNeverAllocated() {
 	w := vpNewWorld(nondetChoice(2), false)
@@ -114,12 +114,25 @@ func VerifC09_q_reservedNeverAllocated() {
 			_ = floatingip.VerifHandleFIPEvent(w.innerIPAM(), obj, true)
 		}
 		name, ok := w.scheduleSts(i)
+		if !ok && w.pods[name] != nil && w.pods[name].Spec.NodeName == "" {
+			// the scheduler retries a failed bind (the allocation may have run into the reservation it has not heard of)
+			if nodes, err := w.filter(name, "n1", "n2", "n3"); err == nil && len(nodes) > 0 {
+				if w.bind(name, nodes[0]) == nil {
+					w.setRunning(name)
+					w.syncListers()
+					ok = true
+				}
+			}
+		}
 		if ok {
 			for _, ip := range vpBoundIPs(w.pods[name]) {
 				verifAssert("C09/reserved-not-allocated", !w.reservedInStore(ip), "a pod was bound with an IP that carries an administrator's reservation")
 			}
 		}
 		verifAssert("C09/unique", w.invUnique(), "two live pods hold the same IP")
+		if reserved {
+			verifAssert("C09/reservation-kept", w.reservedInStore(r), "the administrator's reservation object was overwritten or deleted")
+		}
 	}
 	verifReach("scheduled")
 	if reserved {
